@@ -32,9 +32,25 @@ func uvarintFromBuf(r *bufio.Reader) (uint64, error) {
 	if err != nil && err != io.EOF {
 		return 0, err
 	}
+	if len(p) < uvarintLen(p) {
+		return 0, io.ErrUnexpectedEOF
+	}
 	x, n := uvarintFromBytes(p)
 	_, err = r.Discard(n)
 	return x, err
+}
+
+// uvarintLen tells how many bytes the varint starting p needs;
+// for empty p it is 1.
+func uvarintLen(p []byte) int {
+	switch {
+	case len(p) == 0 || p[0] <= 240:
+		return 1
+	case p[0] <= 248:
+		return 2
+	default:
+		return int(p[0]) - 246
+	}
 }
 
 func varintToBytes(p []byte, x int64) int {
@@ -135,23 +151,28 @@ func valueFromBuf(r *bufio.Reader) (value, error) {
 
 	switch c := typecode(b[0]); c {
 	case typeINT:
-		p, _ := r.Peek(9)
-		x, i := varintFromBytes(p)
-		_, err = r.Discard(i)
-		return int(x), err
+		x, err := uvarintFromBuf(r)
+		return int(u64ToI64(x)), err
 
 	case typeFLOAT:
-		p, _ := r.Peek(8)
-		_, err = r.Discard(len(p))
-		return math.Float64frombits(stdbinary.BigEndian.Uint64(p)), err
+		var p [8]byte
+		_, err = io.ReadFull(r, p[:])
+		if err != nil {
+			return nil, err
+		}
+		return math.Float64frombits(stdbinary.BigEndian.Uint64(p[:])), nil
 
 	case typeSTR:
-		p, _ := r.Peek(9)
-		k, i := uvarintFromBytes(p)
-		r.Discard(i)
-		p, _ = r.Peek(int(k))
-		_, err = r.Discard(len(p))
-		return string(p), err
+		k, err := uvarintFromBuf(r)
+		if err != nil {
+			return nil, err
+		}
+		p := make([]byte, k)
+		_, err = io.ReadFull(r, p)
+		if err != nil {
+			return nil, err
+		}
+		return string(p), nil
 
 	case typeBOOL:
 		_, err = io.ReadFull(r, b[:1])
